@@ -33,6 +33,8 @@ const c11Shared = `(do
   (def spin (fn [n] (if (> n 0) (spin (- n 1)) nil)))
   (def tmp-helper (fn [x] (* x 1000)))
   (def shared-atom (atom (vec (range 0 30))))
+  (def shared-fn2 (fn [x] (do (cond false 0 true 1) (+ (shared-mac x) (-> x (+ 1)) (if (and x true) 1 0)))))
+  (def shared-fn3 (fn [x] (let [y (or nil x)] (list (cond (> y 1000) :big true :small) (->> y (+ 1))))))
   (def shared-atom2 (atom (list 1 "str" :k [2 3] {:only 1})))
   nil)`
 
@@ -109,6 +111,12 @@ var c11Templates = []struct {
 	{"print-shared-atom", `(list N (str shared-atom) (count (pr-str shared-atom2)))`},
 	{"print-shared-atom2", `(do (spin 1) (list (pr-str shared-atom) N (str "x" shared-atom2)))`},
 	{"deref-shared-atom", `(list (count @shared-atom) (nth @shared-atom2 1) N)`},
+	// a self-tail-recursive loop whose turns start futures / make closures that outlive the turn
+	{"tail-loop-futures", `(do (def T-spawn (fn [i acc] (if (> i 3) acc (T-spawn (+ i 1) (conj acc (future (do (spin 1) (* i N)))))))) (map deref (T-spawn 1 [])))`},
+	{"tail-loop-closures", `(do (def T-mkc (fn [i acc] (if (> i 3) acc (T-mkc (+ i 1) (conj acc (fn [] (list i N))))))) (map (fn [c] (c)) (T-mkc 1 [])))`},
+	// the first calls of shared functions that nobody has called yet (their bodies contain macro calls)
+	{"first-call-shared-fn2", `(list (shared-fn2 N) (shared-fn2 1))`},
+	{"first-call-shared-fn3", `(shared-fn3 N)`},
 	// an atom of the program's own is printed by one of its threads while another one updates it
 	{"own-atom-printed-while-swapped", `(do (def T-at (atom [N])) (let [f (future (do (swap! T-at conj 1) (spin 1) (swap! T-at conj 2) :done)) s (str T-at)] (do @f (list (count s) (str T-at)))))`},
 	{"own-atom-printed-while-reset", `(let [a (atom (list N)) f (future (do (reset! a (list N N)) (reset! a (list N N N))))] (do (pr-str a) @f (pr-str a)))`},
